@@ -1,465 +1,345 @@
 """C16 — the AVL tree stays a correct balanced ordered set.
 
-The global invariant over arbitrary histories is not decided (no frama-c).
-Claimed: rotations by shape interpretation, one-step rebalance for all height
-configurations, pairing/purity/rebalance-start structure of insert and delete.
+Every rule evaluates the *public* operations (iv_avl_tree_insert / _delete / _next / _prev /
+_min / _max / _empty) with the shape interpreter of h16 (abstract execution of the CFG facts
+over a named symbolic heap; comparator outcomes are an abstract assignment; no repository code
+runs) and states demands on the resulting heap.  No rule names a static helper or a local
+variable of iv_avl.c, so how insert / delete / rebalancing are cut into helpers is irrelevant.
+
+Families of inputs
+  shapes     every AVL shape of height <= 4 (335 shapes, up to 15 nodes) and a sample of the
+             sparsest shapes of height 5 (where one deletion needs two rotations); on each:
+             insert at every gap, insert a duplicate of every node, delete every node
+  histories  the state graph reachable from the empty tree by insert / delete / duplicate
+             insert over K keys (every history over K keys, explored per distinct state)
+
+The global invariant over arbitrarily large trees is not decided (no inductive proof).
 """
-import itertools
-from ..core import (names_of, same_value, AnalysisBroken, canon, strip, last_member, must_pass, relpath, norm_cond, walk, forward, lvalue_root)
-from ..analyses import (is_call, holding, path_to, describe, exits_of, loops, innermost_loop, must_pass_from_block)
-from ..heap import Heap, Interp, Stuck, NULL
+from ..core import AnalysisBroken
+from ..heap import NULL
+from . import h16
+from .h16 import JUNK, DEMANDS
 from .c11 import null_rule
 
-# documented pre-shapes (header comment of iv_avl.c): capital = present, lower case = maybe NULL
-SHAPES = {
-    'rotate_left': ('B', {'B': ('a', 'D'), 'D': ('c', 'e')}, 'D'),
-    'rotate_right': ('D', {'D': ('B', 'e'), 'B': ('a', 'c')}, 'B'),
-    'rotate_left_right': ('F', {'F': ('B', 'g'), 'B': ('a', 'D'), 'D': ('c', 'e')}, 'D'),
-    'rotate_right_left': ('B', {'B': ('a', 'F'), 'F': ('D', 'g'), 'D': ('c', 'e')}, 'D'),
-}
-HRANGE = (0, 1, 2, 3)
-
-
-def build(shape, hts, parent_present):
-    """Heap for a shape with opaque subtree heights hts (0 = NULL)."""
-    root, inner, _ = shape
-    H = Heap()
-    leaves = sorted({x for ch in inner.values() for x in ch if x not in inner})
-    def ref(x):
-        if x in inner:
-            return x
-        return x if hts[x] > 0 else NULL
-    # heights bottom-up
-    hh = {}
-    def height(x):
-        if x is NULL:
-            return 0
-        if x in hh:
-            return hh[x]
-        if x in inner:
-            l, r = inner[x]
-            hh[x] = 1 + max(height(ref(l)), height(ref(r)))
-        else:
-            hh[x] = hts[x]
-        return hh[x]
-    P = 'P' if parent_present else NULL
-    for x in inner:
-        l, r = inner[x]
-        H.node(x, left=ref(l), right=ref(r), parent=NULL, height=height(x))
-    for x in leaves:
-        if hts[x] > 0:
-            H.node(x, left='?', right='?', parent=NULL, height=hts[x])
-    for x in inner:
-        for c in inner[x]:
-            if ref(c) is not NULL:
-                H.nodes[ref(c)]['parent'] = x
-    H.nodes[root]['parent'] = P
-    if P:
-        H.node('P', left=root, right=NULL, parent=NULL, height=height(root) + 1)
-    H.cells['slot'] = root
-    return H, leaves
-
-
-def inorder(H, x, opaque, seen=None):
-    seen = seen if seen is not None else set()
-    if x is NULL:
-        return []
-    if x in seen:
-        raise Stuck('cycle through %s' % x)
-    seen.add(x)
-    if x in opaque:
-        return [x]
-    n = H.nodes[x]
-    return inorder(H, n['left'], opaque, seen) + [x] + inorder(H, n['right'], opaque, seen)
-
-
-def check_subtree(H, x, opaque, parent, problems, balanced=True):
-    """parents consistent, recorded heights exact, |balance| <= 1; returns height."""
-    if x is NULL:
-        return 0
-    n = H.nodes[x]
-    if n['parent'] != parent:
-        problems.append('%s->parent is %s, should be %s' % (x, n['parent'], parent))
-    if x in opaque:
-        return n['height']
-    hl = check_subtree(H, n['left'], opaque, x, problems, balanced)
-    hr = check_subtree(H, n['right'], opaque, x, problems, balanced)
-    if n['height'] != 1 + max(hl, hr):
-        problems.append('%s->height recorded %d, actual %d' % (x, n['height'], 1 + max(hl, hr)))
-    if balanced and abs(hr - hl) > 1:
-        problems.append('%s unbalanced (%d)' % (x, hr - hl))
-    return 1 + max(hl, hr)
+INSERT, DELETE = 'iv_avl_tree_insert', 'iv_avl_tree_delete'
+K_KEYS = 7
+MAX_H = 4
+SPARSE_H, SPARSE_STEP = 5, 9
 
 
 def run(ctx):
-    ctx.rule('R-C16a', 'rotations by shape interpretation: for every NULL/height configuration of the documented pre-shape the in-order '
-                       'sequence is unchanged, child->parent links are consistent, the new root inherits the old root\'s parent, recorded '
-                       'heights are exact and the root slot holds the documented new root', floor=4)
-    ctx.rule('R-C16b', 'child/parent pairing in insert and delete: a node linked under a parent gets that parent; the victim inherits '
-                       'left, right, parent and height of the removed node and its new children point back to it', floor=8)
-    ctx.rule('R-C16c', 'duplicate insert changes nothing: no store through a pointer on any path that returns failure', floor=1)
-    ctx.rule('R-C16d', 'rebalancing starts at the lowest changed node and walks to the root: recomputes the height before testing balance, '
-                       'stops early only on the unchanged-height edge', floor=5)
-    ctx.rule('R-C16e', 'one rebalance step restores balance: for every AVL-valid configuration around a node with balance in -2..2 the step '
-                       'yields balanced named nodes with exact heights, unchanged order and consistent parents', floor=1)
+    ctx.rule('R-C16a', 'any history: in every state reachable from the empty tree over %d keys, after an insert / delete the in-order '
+                       'sequence is the old one plus / minus the node, the root slot and every child->parent link are consistent and '
+                       'every recorded height is exact (whatever rotations the operation performed)' % K_KEYS, floor=6)
+    ctx.rule('R-C16b', 'any shape: on every AVL shape up to height %d, inserting at every position and deleting every node yields exactly '
+                       'the old sequence plus / minus the node, with every link paired (child slot <-> parent pointer, root slot, the '
+                       'removed node no longer referenced, no uninitialised field) and exact recorded heights' % MAX_H, floor=6)
+    ctx.rule('R-C16c', 'inserting a node whose key is present fails and writes nothing at all; inserting a new key succeeds; the '
+                       'comparator is only ever reached through the tree object, with nodes of that tree', floor=6)
+    ctx.rule('R-C16d', 'rebalancing covers the whole changed path: after a single insert / delete on every AVL shape (including the sparse '
+                       'shapes of height %d that need two rotations) all heights are exact and all nodes balanced; a node is restructured '
+                       'only after its height was recomputed' % SPARSE_H, floor=5)
+    ctx.rule('R-C16e', 'the tree is height-balanced after every operation: subtree heights differ by at most one at every node '
+                       '(histories and shapes)', floor=4)
     ctx.rule('R-C16g', 'NULL-CONTRADICTION in iv_avl.c', floor=3)
     ctx.rule('R-C16f', 'traversal: for every binary-tree shape of up to 6 nodes and every node, next / prev return the in-order neighbour '
-                       '(NULL at the ends) and min / max the extremes (shape interpretation of the traversal functions)', floor=4)
+                       '(NULL at the ends), next_safe the same and NULL for NULL, min / max the extremes, empty tells whether there is a root; '
+                       'none of them writes', floor=6)
     ctx.section(traversal)
-    ctx.section(rotations)
-    ctx.section(rebalance_step)
-    ctx.section(pairing)
-    ctx.section(duplicate)
-    ctx.section(path)
+    ctx.section(operations)
     ctx.section(lambda c: null_rule(c, 'R-C16g', ('iv_avl.c',)))
 
 
-def rotations(ctx):
-    prog = ctx.prog
-    for fn, shape in sorted(SHAPES.items()):
-        f = prog.fn(fn)
-        root, inner, newroot = shape
-        leaves = sorted({x for ch in inner.values() for x in ch if x not in inner})
-        cases, bad = 0, []
-        for hv in itertools.product(HRANGE, repeat=len(leaves)):
-            for pp in (False, True):
-                hts = dict(zip(leaves, hv))
-                H, _ = build(shape, hts, pp)
-                opaque = {x for x in leaves if hts[x] > 0} | ({'P'} if pp else set())
-                before = inorder(H, root, opaque)
-                it = Interp(prog, H, opaque=opaque - {'P'})
-                cases += 1
-                try:
-                    it.call(fn, [('cellref', 'slot')])
-                    nr = H.cells['slot']
-                    problems = []
-                    if nr != newroot:
-                        problems.append('root slot holds %s, documented new root is %s' % (nr, newroot))
-                    after = inorder(H, nr, opaque)
-                    if after != before:
-                        problems.append('in-order sequence %s became %s' % (before, after))
-                    check_subtree(H, nr, opaque, 'P' if pp else NULL, problems, balanced=False)
-                except Stuck as s:
-                    problems = ['interpretation stuck: %s' % s]
-                if problems:
-                    bad.append((hts, pp, problems))
-        ctx.ob('R-C16a', fn, not bad, loc=f.loc,
-               detail=('%d configurations; first failure heights=%s parent=%s: %s' % (cases, bad[0][0], bad[0][1], '; '.join(bad[0][2][:3]))) if bad else
-                      '%d configurations of subtree heights / NULL-ness / parent presence: order, parent links, heights and root slot all as documented' % cases,
-               fn=f.q)
+# --------------------------------------------------------------------------
+# insert / delete / duplicate insert on the two families
+# --------------------------------------------------------------------------
+
+class Tally:
+    """runs and failing examples per (family, op, demand)"""
+
+    def __init__(self):
+        self.n = {}
+        self.bad = {}
+
+    def count(self, fam, op):
+        self.n[(fam, op)] = self.n.get((fam, op), 0) + 1
+        self.run = (fam, op, self.n[(fam, op)])
+
+    def fail(self, fam, op, demand, example):
+        """a demand fails in the current run"""
+        self.bad.setdefault((fam, op, demand), []).append((self.run, example))
+
+    def runs(self, fam, op):
+        if isinstance(fam, tuple):
+            return sum(self.runs(f, op) for f in fam)
+        return self.n.get((fam, op), 0)
+
+    def fails(self, fam, op, demand):
+        if isinstance(fam, tuple):
+            return [x for f in fam for x in self.fails(f, op, demand)]
+        if isinstance(demand, tuple):
+            return [x for d in demand for x in self.fails(fam, op, d)]
+        return self.bad.get((fam, op, demand), [])
 
 
-def rebalance_step(ctx):
-    prog = ctx.prog
-    f = prog.fn('rebalance_node')
-    # X( L( ll, LR(lrl, lrr) ), R( RL(rll, rlr), rr ) ) ; L, R, LR, RL may be absent
-    leaves = ['ll', 'lrl', 'lrr', 'rll', 'rlr', 'rr']
-    cases, bad, rot = 0, [], {}
-    for hv in itertools.product(HRANGE, repeat=6):
-        hts = dict(zip(leaves, hv))
-        for hasLR, hasRL in itertools.product((False, True), repeat=2):
-            for hasL, hasR in itertools.product((False, True), repeat=2):
-                if not hasLR and (hts['lrl'] or hts['lrr']):
-                    continue
-                if not hasRL and (hts['rll'] or hts['rlr']):
-                    continue
-                if not hasL and (hasLR or hts['ll']):
-                    continue
-                if not hasR and (hasRL or hts['rr']):
-                    continue
-                H = Heap()
-                def leaf(n_):
-                    if hts[n_] > 0:
-                        H.node(n_, left='?', right='?', parent=NULL, height=hts[n_])
-                        return n_
-                    return NULL
-                def mk(name, l, r):
-                    hl = H.nodes[l]['height'] if l else 0
-                    hr = H.nodes[r]['height'] if r else 0
-                    H.node(name, left=l, right=r, parent=NULL, height=1 + max(hl, hr))
-                    for c in (l, r):
-                        if c:
-                            H.nodes[c]['parent'] = name
-                    return name, hr - hl
-                ok_avl = True
-                lr = rl = NULL
-                if hasLR:
-                    lr, b = mk('LR', leaf('lrl'), leaf('lrr'))
-                    ok_avl &= abs(b) <= 1
-                if hasRL:
-                    rl, b = mk('RL', leaf('rll'), leaf('rlr'))
-                    ok_avl &= abs(b) <= 1
-                L = R = NULL
-                if hasL:
-                    L, b = mk('L', leaf('ll'), lr)
-                    ok_avl &= abs(b) <= 1
-                if hasR:
-                    R, b = mk('R', rl, leaf('rr'))
-                    ok_avl &= abs(b) <= 1
-                X, bx = mk('X', L, R)
-                if not ok_avl or abs(bx) > 2:
-                    continue
-                # the recorded height of X may be stale by design? no: rebalance_path recalculates it first
-                H.node('P', left='X', right=NULL, parent=NULL, height=H.nodes['X']['height'] + 1)
-                H.nodes['X']['parent'] = 'P'
-                H.cells['slot'] = 'X'
-                opaque = {x for x in leaves if hts[x] > 0} | {'P'}
-                before = inorder(H, 'X', opaque)
-                it = Interp(prog, H, opaque=opaque - {'P'})
-                cases += 1
-                try:
-                    it.call('rebalance_node', [('cellref', 'slot')])
-                    calls = [c[1] for c in it.log if c[0] == 'call' and c[1].startswith('rotate')]
-                    rot[(bx, tuple(calls))] = rot.get((bx, tuple(calls)), 0) + 1
-                    nr = H.cells['slot']
-                    problems = []
-                    after = inorder(H, nr, opaque)
-                    if after != before:
-                        problems.append('in-order %s -> %s' % (before, after))
-                    check_subtree(H, nr, opaque, 'P', problems, balanced=True)
-                    if abs(bx) < 2 and calls:
-                        problems.append('rotation %s on a node with balance %d' % (calls, bx))
-                except Stuck as s:
-                    problems = ['stuck: %s' % s]
-                if problems:
-                    bad.append((dict(hts), (hasL, hasLR, hasR, hasRL), bx, problems))
-    if cases < 100:
-        raise AnalysisBroken('rebalance step: only %d configurations generated' % cases)
-    ctx.ob('R-C16e', 'rebalance_node', not bad, loc=f.loc,
-           detail=('%d AVL-valid configurations; first failure %s shape=%s balance=%d: %s' % (cases, bad[0][0], bad[0][1], bad[0][2], '; '.join(bad[0][3][:3]))) if bad else
-                  '%d AVL-valid configurations (balance -2..2): balanced, exact heights, order and parents preserved; rotations chosen: %s'
-                  % (cases, sorted('%+d:%s' % (k[0], '+'.join(k[1]) or 'none') for k in rot)),
-           fn=f.q)
+class _Lazy:
+    """a description that is only rendered when a run fails"""
+
+    def __init__(self, fn):
+        self.fn = fn
+
+    def __str__(self):
+        return self.fn()
 
 
-def pairing(ctx):
-    prog = ctx.prog
-    ins = prog.fn('iv_avl_tree_insert')
-    link = [e for e in ins.events() if e['ev'] == 'store' and strip(e['lhs']).get('k') == 'deref' and canon(e.get('rhs')) == ins.params[1]['name']]
-    if not link:
-        raise AnalysisBroken('insert: link of the new node not found')
-    an = ins.params[1]['name']
-    for fld, want in (('parent', None), ('left', 'NULL'), ('right', 'NULL'), ('height', '1')):
-        mp = must_pass(ins, lambda e, fld=fld, want=want: e['ev'] == 'store' and last_member(e['lhs']) == ('iv_avl_node', fld)
-                       and canon(strip(e['lhs'])['base']) == an and (want is None or canon(e.get('rhs')) in (want, '0' if want == 'NULL' else want)))
-        ctx.ob('R-C16b', 'insert:new-node-%s' % fld, all(mp.get((e['_b'], e['_i'])) for e in link), loc=link[0]['loc'],
-               detail='%s->%s is initialised before the node is linked into the tree' % (an, fld), fn=ins.q)
-    # the parent stored is the node whose child slot is written
-    ps = [e for e in ins.events() if e['ev'] == 'store' and last_member(e['lhs']) == ('iv_avl_node', 'parent') and canon(strip(e['lhs'])['base']) == an]
-    slotv = canon(strip(link[0]['lhs'])['e'])
-    pv = canon(ps[0]['rhs']) if ps else None
-    okp = pv is not None
-    for e in ins.events():
-        if e['ev'] == 'store' and canon(e['lhs']) == slotv and strip(e.get('rhs', {})).get('k') == 'addr':
-            tgt = strip(strip(e['rhs'])['e'])
-            if tgt.get('k') == 'member' and tgt['field'] in ('left', 'right'):
-                okp = okp and canon(tgt['base']) == pv
-    ctx.ob('R-C16b', 'insert:slot-belongs-to-stored-parent', okp, loc=link[0]['loc'],
-           detail='the child slot written (%s) is a field of the node stored as parent (%s)' % (slotv, pv), fn=ins.q)
-    d = prog.fn('iv_avl_tree_delete_nonleaf')
-    an = d.params[1]['name']
-    for fld in ('left', 'right', 'parent', 'height'):
-        st = [e for e in d.events() if e['ev'] == 'store' and canon(e['lhs']) == 'victim->%s' % fld and canon(e.get('rhs')) == '%s->%s' % (an, fld)]
-        mp = must_pass(d, lambda e: e in st)
-        ok = bool(st) and all(mp.get((pb, pi)) for (pb, pi, _) in exits_of(d))
-        ctx.ob('R-C16b', 'delete:victim-inherits-%s' % fld, ok, loc=st[0]['loc'] if st else d.loc,
-               detail='victim->%s = %s->%s on every path' % (fld, an, fld), fn=d.q)
-    hd = holding(d)
-    for fld in ('left', 'right'):
-        st = [e for e in d.events() if e['ev'] == 'store' and canon(e['lhs']) == 'victim->%s->parent' % fld and canon(e.get('rhs')) == 'victim']
-        ok = bool(st)
-        for e in st:
-            A = hd.get((e['_b'], e['_i']), frozenset())
-            ok = ok and any(a[0] == '!=' and a[1] == 'victim->%s' % fld and a[2] == '0' for a in A)
-        # and on the non-NULL edge it is always done
-        okm = False
-        for b, blk in d.blocks.items():
-            if blk.term and blk.term.get('cond') is not None and len(blk.succ) == 2:
-                for si in (0, 1):
-                    for (op, lc, rc, l, r) in norm_cond(blk.term['cond'], si == 0):
-                        if op == '!=' and rc == '0' and lc == 'victim->%s' % fld and any(e['_b'] == blk.succ[si] for e in st):
-                            okm = True
-        ctx.ob('R-C16b', 'delete:new-%s-child-points-back' % fld, ok and okm, loc=st[0]['loc'] if st else d.loc,
-               detail='victim->%s->parent = victim under the non-NULL guard' % fld, fn=d.q)
-    # splice-out of the victim: its only child takes its place and is re-parented
-    rr = [e for e in d.events() if is_call(e, 'replace_reference') and canon(e['args'][1]) == 'victim']
-    ok = len(rr) == 2
-    for e in rr:
-        child = canon(e['args'][2])
-        mp = must_pass(d, lambda x, child=child: x['ev'] == 'store' and canon(x['lhs']) == '%s->parent' % child and canon(x.get('rhs')) == 'victim->parent', start_event=e)
-        # guarded: either the store or the NULL edge of the child
-        def tr(x, s_, child=child, e=e):
-            if x is e:
-                return False
-            if s_ is None:
-                return None
-            if x['ev'] == 'store' and canon(x['lhs']) == '%s->parent' % child and canon(x.get('rhs')) == 'victim->parent':
-                return True
-            return s_
-        def edge(blk, si, s_, child=child):
-            if s_ is False and blk.term and blk.term.get('cond') is not None and len(blk.succ) == 2:
-                for (op, lc, rc, l, r) in norm_cond(blk.term['cond'], si == 0):
-                    if op == '==' and lc == child and rc == '0':
-                        return True
-            return s_
-        def jn(a, b):
-            if a is None:
-                return b
-            if b is None:
-                return a
-            return a and b
-        _, ev_in = forward(d, None, tr, jn, edge=edge, start=e['_b'])
-        ok = ok and all(ev_in.get((pb, pi)) is not False for (pb, pi, _) in exits_of(d))
-    ctx.ob('R-C16b', 'delete:victim-spliced-out', ok, loc=rr[0]['loc'] if rr else d.loc,
-           detail='the victim is replaced by its only child, which (if present) is re-parented to the victim\'s parent', fn=d.q)
-    # the start node for rebalancing: victim's original parent, or the victim when that parent is the removed node
-    hdp = holding(d)
-    fix = [e for e in d.events() if e['ev'] == 'store' and canon(e['lhs']) == 'p' and canon(e.get('rhs')) == 'victim']
-    okf = bool(fix) and all(any(a[0] == '==' and {a[1], a[2]} == {'p', an} for a in hdp.get((e['_b'], e['_i']), frozenset())) for e in fix)
-    p0 = [e for e in d.events() if e['ev'] == 'store' and canon(e['lhs']) == 'p' and canon(e.get('rhs')) == 'victim->parent']
-    mpv = must_pass(d, lambda e: e in rr)
-    okf = okf and bool(p0) and all(mpv.get((e['_b'], e['_i'])) for e in p0)
-    ctx.ob('R-C16b', 'delete:rebalance-start', okf, loc=p0[0]['loc'] if p0 else d.loc,
-           detail='rebalancing starts at the victim\'s original parent, or at the victim itself when that parent is the node being removed', fn=d.q)
+def render(H, x=None, first=True):
+    if first:
+        x = H.nodes['T']['root']
+    if x is NULL:
+        return '.'
+    if not isinstance(x, str) or x not in H.nodes:
+        return repr(x)
+    n = H.nodes[x]
+    if n.get('left') is NULL and n.get('right') is NULL:
+        return x
+    return '%s(%s %s)' % (x, render(H, n.get('left'), False), render(H, n.get('right'), False))
 
 
-def duplicate(ctx):
-    prog = ctx.prog
-    f = prog.fn('iv_avl_tree_insert')
-    def tr(e, s):
-        if e['ev'] == 'store':
-            l = strip(e['lhs'])
-            if l.get('k') != 'var':
-                return True
-        if e['ev'] == 'call' and e.get('callee') and prog.has_fn(e['callee']):
-            return True       # helpers may write
-        return s
-    _, ev_in = forward(f, False, tr, lambda a, b: a or b)
-    fails = [(pb, pi, e) for (pb, pi, e) in exits_of(f) if strip(e.get('value', {})).get('k') == 'int' and strip(e['value'])['v'] != 0]
-    if not fails:
-        raise AnalysisBroken('insert: failing return not found')
-    for (pb, pi, e) in fails:
-        ctx.ob('R-C16c', 'insert:duplicate-is-pure', ev_in.get((pb, pi)) is False, loc=e['loc'],
-               detail='no store through a pointer and no helper call on any path to the failing return', fn=f.q)
-    # decision table of one descent step over the comparator's sign
-    from .. import interp
-    from ..analyses import loops as _loops
-    lps = _loops(f)
-    if len(lps) != 1:
-        raise AnalysisBroken('insert: expected one descent loop')
-    h = list(lps)[0]
-    cmpv = None
-    for e in f.events():
-        if e['ev'] == 'store' and 'rhs' in e and strip(e['rhs']).get('k') == 'call' and last_member(strip(e['rhs']).get('fnexpr')) == ('iv_avl_tree', 'compare'):
-            cmpv = canon(e['lhs'])
-    if cmpv is None:
-        raise AnalysisBroken('insert: comparator call not found')
-    for sgn, val in (('<', -1), ('=', 0), ('>', 1)):
-        class A_(interp.Assignment):
-            pass
-        asg = interp.Assignment(bools={'*pp': True}, ints={cmpv: val})
-        trace_stores = []
-        def cm(e, env, a, val=val):
-            pass
-        # run one iteration with the comparator result forced
-        def on(e, env, val=val):
-            if e['ev'] == 'store' and canon(e['lhs']) == cmpv:
-                env[cmpv] = val
-        try:
-            res = interp.run(f, asg, start=h, stop_block=h, on_event=on)
-            stores = [(canon(e['lhs']), canon(e['rhs'])) for e in res['trace'] if e['ev'] == 'store' and 'rhs' in e and canon(e['lhs']) != cmpv]
-            went = [r for (l, r) in stores if r.endswith('->left') or r.endswith('->right')]
-            if sgn == '=':
-                ok = res['end'] == 'ret' and isinstance(res['ret'], int) and res['ret'] != 0
-                exp = 'returns failure at once'
-            else:
-                side = '->left' if sgn == '<' else '->right'
-                ok = res['end'] == 'stop' and len(went) == 1 and went[0].endswith(side)
-                exp = 'descends %s' % side[2:]
-            det = 'compare %s 0: %s, ended %s ret=%s; expected: %s' % (sgn, went, res['end'], res['ret'], exp)
-        except AnalysisBroken as ex:
-            ok, det = False, str(ex)
-        ctx.ob('R-C16c', 'insert:descent(compare%s0)' % sgn, ok, loc=f.loc, detail=det, fn=f.q)
-    hd = holding(f)
-    for (pb, pi, e) in fails:
-        A = hd.get((pb, pi), frozenset())
-        ctx.ob('R-C16c', 'insert:fails-only-on-equal-key', any(a[0] == '==' and a[2] == '0' and all(k[0] == 'var' for k in a[3]) for a in A)
-               or any(a[0] in ('>=', '<=') and a[2] == '0' for a in A), loc=e['loc'],
-               detail='failure is returned only when the comparator reported equality', fn=f.q)
+def fresh_node(H, name):
+    H.node(name, left=JUNK, right=JUNK, parent=JUNK, height=JUNK)
 
 
-def path(ctx):
-    prog = ctx.prog
-    f = prog.fn('rebalance_path')
-    lps = loops(f)
-    if len(lps) != 1:
-        raise AnalysisBroken('rebalance_path: expected one loop')
-    h = list(lps)[0]
-    rb = [e for e in f.events() if is_call(e, 'rebalance_node')]
-    rc = [e for e in f.events() if is_call(e, 'recalc_height')]
-    if not rb or not rc:
-        raise AnalysisBroken('rebalance_path: steps not found')
-    def tr(e, s):
-        return True if e in rc else s
-    def edge(blk, si, s):
-        return False if blk.succ[si] == h else s
-    _, ev_in = forward(f, False, tr, lambda a, b: a and b, edge=edge)
-    ctx.ob('R-C16d', 'path:height-recomputed-before-balance-test', all(ev_in.get((e['_b'], e['_i'])) for e in rb), loc=rb[0]['loc'],
-           detail='recalc_height(an) precedes rebalance_node in every iteration', fn=f.q)
-    # early exit only on the equal-height edge; otherwise continue with the parent
-    exits = [(b, si) for b in lps[h] for si, s in enumerate(f.blocks[b].succ) if s is not None and s not in lps[h]]
+def foreign_node(H, name):
+    """a node that is a member of some other tree: its fields are meaningful there"""
+    for x in ('F1', 'F2', 'F3'):
+        if x not in H.nodes:
+            H.node(x, left=NULL, right=NULL, parent=NULL, height=1)
+    H.node(name, left='F1', right='F2', parent='F3', height=2)
+
+
+def do_insert(prog, H, order, node, rank, tally, fam, ctxt):
+    """insert `node` (absent); returns the resulting heap when everything is as demanded"""
+    tally.count(fam, 'insert')
+    r = h16.run_op(prog, INSERT, H, ['T', node], rank)
+    pos = sum(1 for x in order if rank[x] < rank[node])
+    exp = order[:pos] + [node] + order[pos:]
+    what = _Lazy(lambda: '%sinsert %s into %s' % (ctxt, node, render(H)))
+    if r.stuck:
+        for d in DEMANDS + ('ret', 'discipline', 'cmp'):
+            tally.fail(fam, 'insert', d, '%s: interpretation stuck: %s' % (what, r.stuck))
+        return None
+    a = h16.audit(r.heap, exp)
     ok = True
-    kinds = []
-    for (b, si) in exits:
-        blk = f.blocks[b]
-        atoms = norm_cond(blk.term['cond'], si == 0) if blk.term and blk.term.get('cond') is not None else []
-        k = None
-        for (op, lc, rc_, l, r) in atoms:
-            if op == '==' and {lc, rc_} >= {'old_height'} and ('->height' in lc or '->height' in rc_):
-                k = 'unchanged-height'
-            if op == '==' and rc_ == '0' and lc == f.params[1]['name']:
-                k = 'reached-root'
-        kinds.append(k)
-        if k is None:
+    for d in DEMANDS:
+        if a[d]:
             ok = False
-    ctx.ob('R-C16d', 'path:exits', ok and 'reached-root' in kinds, loc=f.loc,
-           detail='the walk ends only at the root or where the subtree height is unchanged: %s' % kinds, fn=f.q)
-    up = [e for e in f.events() if e['ev'] == 'store' and canon(e['lhs']) == f.params[1]['name'] and canon(e.get('rhs')).endswith('->parent')]
-    ctx.ob('R-C16d', 'path:moves-to-parent', bool(up), loc=up[0]['loc'] if up else f.loc, detail='the walk continues with an->parent', fn=f.q)
-    oh = [e for e in f.events() if e['ev'] == 'store' and canon(e['lhs']) == 'old_height']
-    mpo = must_pass(f, lambda e: e in rc)
-    ctx.ob('R-C16d', 'path:old-height-sampled-before-recalc', bool(oh) and all(not _before(f, rc, e, h) for e in oh), loc=oh[0]['loc'] if oh else f.loc,
-           detail='old_height is read before the height is recomputed in the iteration', fn=f.q)
-    ins = prog.fn('iv_avl_tree_insert')
-    an = ins.params[1]['name']
-    ps = [e for e in ins.events() if e['ev'] == 'store' and last_member(e['lhs']) == ('iv_avl_node', 'parent') and canon(strip(e['lhs'])['base']) == an]
-    calls = [e for e in ins.events() if is_call(e, 'rebalance_path')]
-    ctx.ob('R-C16d', 'insert:rebalance-from-parent', bool(calls) and bool(ps) and all(canon(e['args'][1]) == canon(ps[0]['rhs']) for e in calls)
-           and all(must_pass(ins, lambda x: x in calls).get((pb, pi)) for (pb, pi, e) in exits_of(ins) if canon(e.get('value')) == '0'), loc=calls[0]['loc'] if calls else ins.loc,
-           detail='insert rebalances from the new node\'s parent on every success path', fn=ins.q)
-    d = prog.fn('iv_avl_tree_delete')
-    calls = [e for e in d.events() if is_call(e, 'rebalance_path')]
-    pv = canon(calls[0]['args'][1]) if calls else None
-    defs = [e for e in d.events() if e['ev'] == 'store' and canon(e['lhs']) == pv]
-    okd = bool(calls) and bool(defs) and all(strip(e['rhs']).get('k') == 'call' and strip(e['rhs']).get('callee') in ('iv_avl_tree_delete_leaf', 'iv_avl_tree_delete_nonleaf') for e in defs) \
-        and bool(must_pass(d, lambda x: x in calls).get((d.exit, 0)))
-    ctx.ob('R-C16d', 'delete:rebalance-from-helper-result', okd, loc=calls[0]['loc'] if calls else d.loc,
-           detail='delete rebalances from the node its helper designates, on every path', fn=d.q)
-    lf = prog.fn('iv_avl_tree_delete_leaf')
-    rets = [e for (pb, pi, e) in exits_of(lf)]
-    ctx.ob('R-C16d', 'delete-leaf:start-at-parent', bool(rets) and all(canon(e.get('value')).endswith('->parent') for e in rets), loc=lf.loc,
-           detail='leaf removal rebalances from the removed node\'s parent', fn=lf.q)
+            tally.fail(fam, 'insert', d, '%s gives %s: %s' % (what, render(r.heap), '; '.join(a[d][:2])))
+    if r.ret is JUNK or r.ret is NULL or r.ret != 0:
+        ok = False
+        tally.fail(fam, 'insert', 'ret', '%s returns %r although the key is new' % (what, r.ret))
+    if r.heap.nodes['T']['compare'] != H.nodes['T']['compare']:
+        ok = False
+        tally.fail(fam, 'insert', 'links', '%s overwrites tree->compare' % what)
+    # ordering discipline: a node of the old tree gets a child link rewritten (restructuring, not the linking of the
+    # new node) only after its own height was rewritten in this operation, if it is rewritten at all
+    th, tl = {}, {}
+    for i, (n_, fld, old, new, loc) in enumerate(r.machine.writes):
+        if n_ == node or n_ == 'T':
+            continue
+        if fld == 'height':
+            th.setdefault(n_, i)
+        elif fld in ('left', 'right') and new != node:
+            tl.setdefault(n_, (i, loc))
+    for n_ in tl:
+        if n_ in th and tl[n_][0] < th[n_]:
+            tally.fail(fam, 'insert', 'discipline', '%s: %s is restructured (%s) before its height is recomputed' % (what, n_, _rel(tl[n_][1])))
+    if not r.machine.indirect:
+        if order:
+            tally.fail(fam, 'insert', 'cmp', '%s never consults the comparator' % what)
+    return r.heap if ok else None
 
 
-def _before(f, rc, e, h):
-    """some recalc precedes e within the iteration"""
-    def tr(x, s):
-        return True if x in rc else s
-    def edge(blk, si, s):
-        return False if blk.succ[si] == h else s
-    _, ev_in = forward(f, False, tr, lambda a, b: a or b, edge=edge)
-    return bool(ev_in.get((e['_b'], e['_i'])))
+def do_duplicate(prog, H, order, twin, tally, fam, ctxt):
+    """insert a node whose key equals that of `twin` (present)"""
+    tally.count(fam, 'duplicate')
+    G = h16.clone(H)
+    foreign_node(G, 'D')
+    rank = {x: 2 * i + 2 for i, x in enumerate(order)}
+    rank['D'] = rank[twin]
+    r = h16.run_op(prog, INSERT, G, ['T', 'D'], rank)
+    what = _Lazy(lambda: '%sinsert a duplicate of %s into %s' % (ctxt, twin, render(H)))
+    if r.stuck:
+        for d in ('fails', 'pure'):
+            tally.fail(fam, 'duplicate', d, '%s: interpretation stuck: %s' % (what, r.stuck))
+        return
+    if r.ret is JUNK or r.ret is NULL or r.ret == 0:
+        tally.fail(fam, 'duplicate', 'fails', '%s returns %r (success); tree afterwards %s' % (what, r.ret, render(r.heap)))
+    if r.machine.writes:
+        w = r.machine.writes[0]
+        tally.fail(fam, 'duplicate', 'pure', '%s writes %s->%s = %s at %s%s' % (what, w[0], w[1], w[3], _rel(w[4]),
+                                                                           '' if r.heap.nodes != G.nodes else ' (restored later)'))
+    elif r.heap.nodes != G.nodes:
+        tally.fail(fam, 'duplicate', 'pure', '%s changes the heap' % what)
 
+
+def do_delete(prog, H, order, node, tally, fam, ctxt):
+    tally.count(fam, 'delete')
+    r = h16.run_op(prog, DELETE, H, ['T', node], None)
+    what = _Lazy(lambda: '%sdelete %s from %s' % (ctxt, node, render(H)))
+    if r.stuck:
+        for d in DEMANDS:
+            tally.fail(fam, 'delete', d, '%s: interpretation stuck: %s' % (what, r.stuck))
+        return None
+    exp = [x for x in order if x != node]
+    a = h16.audit(r.heap, exp)
+    ok = True
+    for d in DEMANDS:
+        if a[d]:
+            ok = False
+            tally.fail(fam, 'delete', d, '%s gives %s: %s' % (what, render(r.heap), '; '.join(a[d][:2])))
+    if r.heap.nodes['T']['compare'] != H.nodes['T']['compare']:
+        ok = False
+        tally.fail(fam, 'delete', 'links', '%s overwrites tree->compare' % what)
+    return r.heap if ok else None
+
+
+def _rel(loc):
+    from ..core import relpath
+    return relpath(loc) if loc else '?'
+
+
+def shape_family(prog, tally):
+    fams = [('shapes', sh) for h in range(0, MAX_H + 1) for sh in h16.avl_shapes(h)]
+    fams += [('sparse', sh) for sh in h16.fib_shapes(SPARSE_H)[::SPARSE_STEP]]
+    for fam, sh in fams:
+        H, order = h16.build_tree(sh)
+        k = len(order)
+        G = h16.clone(H)
+        fresh_node(G, 'N')
+        for g in range(k + 1):
+            rank = {x: 2 * i + 2 for i, x in enumerate(order)}
+            rank['N'] = 2 * g + 1
+            do_insert(prog, G, order, 'N', rank, tally, fam, '')
+        for x in order:
+            do_duplicate(prog, H, order, x, tally, fam, '')
+            do_delete(prog, H, order, x, tally, fam, '')
+    return len(fams)
+
+
+def state_key(H):
+    out = []
+
+    def walk(x):
+        if x is NULL:
+            return
+        n = H.nodes[x]
+        walk(n['left'])
+        out.append((x, n['left'], n['right'], n['parent'], n['height']))
+        walk(n['right'])
+    walk(H.nodes['T']['root'])
+    return tuple(out)
+
+
+def history_family(prog, tally, K=K_KEYS, max_states=20000):
+    """breadth-first over the distinct states reachable from the empty tree"""
+    keys = ['k%d' % i for i in range(K)]
+    rank = {k: 2 * i + 2 for i, k in enumerate(keys)}
+    H0 = h16.Heap()
+    H0.node('T', root=NULL, compare=('cmp', 'T'))
+    for k in keys:
+        fresh_node(H0, k)
+    seen = {state_key(H0): None}
+    hist = {state_key(H0): ''}
+    work = [(H0, [])]
+    nstates = 0
+    while work:
+        nxt = []
+        for (H, order) in work:
+            nstates += 1
+            here = hist[state_key(H)]
+            ctxt = ('after [%s]: ' % here.strip()) if here else ''
+            for k in keys:
+                if k in order:
+                    do_duplicate(prog, H, order, k, tally, 'histories', ctxt)
+                    G = do_delete(prog, H, order, k, tally, 'histories', ctxt)
+                    step = '-%s' % k
+                    if G is not None:
+                        # the removed node is free memory now
+                        G.nodes[k] = dict(left=JUNK, right=JUNK, parent=JUNK, height=JUNK)
+                        o2 = [x for x in order if x != k]
+                else:
+                    G = do_insert(prog, H, order, k, rank, tally, 'histories', ctxt)
+                    step = '+%s' % k
+                    if G is not None:
+                        o2 = sorted(order + [k], key=lambda x: rank[x])
+                if G is None:
+                    continue
+                key = state_key(G)
+                if key not in seen:
+                    seen[key] = None
+                    hist[key] = here + ' ' + step
+                    nxt.append((G, o2))
+                    if len(seen) > max_states:
+                        raise AnalysisBroken('history exploration exceeds %d states' % max_states)
+        work = nxt
+    return nstates
+
+
+def operations(ctx):
+    prog = ctx.prog
+    ins = h16.public_fn(prog, INSERT)
+    dele = h16.public_fn(prog, DELETE)
+    for f, n in ((ins, 2), (dele, 2)):
+        if len(f.params) != n:
+            raise AnalysisBroken('%s: unexpected signature' % f.name)
+    rec = prog.records.get('iv_avl_node', {})
+    if {fl['name'] for fl in rec.get('fields', [])} != {'left', 'right', 'parent', 'height'}:
+        raise AnalysisBroken('struct iv_avl_node has other fields than left/right/parent/height: heap model out of date')
+    rect = prog.records.get('iv_avl_tree', {})
+    if {fl['name'] for fl in rect.get('fields', [])} != {'compare', 'root'}:
+        raise AnalysisBroken('struct iv_avl_tree has other fields than compare/root: heap model out of date')
+    t = Tally()
+    nshapes = shape_family(prog, t)
+    nstates = history_family(prog, t)
+    if t.runs('shapes', 'insert') < 3000 or t.runs('shapes', 'delete') < 3000 or nstates < 1:
+        raise AnalysisBroken('shape family degenerate')
+    fn_of = {'insert': ins, 'delete': dele, 'duplicate': ins}
+    ALLSH = ('shapes', 'sparse')
+
+    def ob(rid, inst, fam, op, demand, text):
+        bad = t.fails(fam, op, demand)
+        n = t.runs(fam, op)
+        f = fn_of[op]
+        ctx.ob(rid, inst, not bad, loc=f.loc, fn=f.q,
+               detail=('%d of %d runs fail; first: %s' % (len({r for r, _ in bad}), n, bad[0][1])) if bad else '%d runs: %s' % (n, text))
+
+    words = {'order': 'the in-order sequence is the old one %s the node',
+             'links': 'root slot, child slots and parent pointers are paired; nothing uninitialised or stale is reachable',
+             'heights': 'every recorded height is exact'}
+    for op, pm in (('insert', 'plus'), ('delete', 'minus')):
+        for d in ('order', 'links', 'heights'):
+            txt = words[d] % pm if '%s' in words[d] else words[d]
+            ob('R-C16a', 'histories:%s:%s' % (op, d), 'histories', op, d, '(%d reachable states over %d keys) %s' % (nstates, K_KEYS, txt))
+            ob('R-C16b', 'shapes:%s:%s' % (op, d), ALLSH, op, d, '(%d shapes) %s' % (nshapes, txt))
+        ob('R-C16e', 'histories:%s:balance' % op, 'histories', op, 'balance', 'every node has balance -1..1 afterwards')
+        ob('R-C16e', 'shapes:%s:balance' % op, ALLSH, op, 'balance', 'every node has balance -1..1 afterwards')
+        ob('R-C16d', 'shapes:%s:rebalanced' % op, 'shapes', op, ('heights', 'balance'),
+           'heights exact and balance restored from the changed position up to the root')
+        ob('R-C16d', 'sparse-height-%d:%s:rebalanced' % (SPARSE_H, op), 'sparse', op, ('heights', 'balance'),
+           'heights exact and balance restored, including the cases that need a rotation at two levels')
+    ob('R-C16d', 'insert:height-recomputed-before-restructuring', ALLSH + ('histories',), 'insert', 'discipline',
+       'no node of the old tree has a child link rewritten before its own height was recomputed')
+    for fam, fl in ((ALLSH, 'shapes'), ('histories', 'histories')):
+        ob('R-C16c', '%s:duplicate:returns-failure' % fl, fam, 'duplicate', 'fails', 'a node with a present key is rejected with a non-zero result')
+        ob('R-C16c', '%s:duplicate:writes-nothing' % fl, fam, 'duplicate', 'pure', 'the rejected insert performs no write to any node or to the tree')
+    ob('R-C16c', 'insert:fails-only-on-equal-key', ALLSH + ('histories',), 'insert', 'ret', 'every insert of a new key returns 0')
+    ob('R-C16c', 'comparator:reached-through-the-tree', ALLSH + ('histories',), 'insert', 'cmp',
+       'every indirect call is a call of tree->compare on (nodes of) this tree; every insert into a non-empty tree consults it')
+
+
+# --------------------------------------------------------------------------
+# traversal
+# --------------------------------------------------------------------------
 
 def _shapes(n):
     """all binary tree shapes with n nodes as nested tuples (left, right)"""
@@ -475,46 +355,50 @@ def _shapes(n):
 
 def traversal(ctx, maxn=6):
     prog = ctx.prog
-    fns = {'next': 'iv_avl_tree_next', 'prev': 'iv_avl_tree_prev', 'min': 'iv_avl_tree_min', 'max': 'iv_avl_tree_max'}
+    fns = {'next': 'iv_avl_tree_next', 'prev': 'iv_avl_tree_prev', 'min': 'iv_avl_tree_min', 'max': 'iv_avl_tree_max',
+           'empty': 'iv_avl_tree_empty', 'next_safe': 'iv_avl_tree_next_safe'}
     bad = {k: [] for k in fns}
     cases = {k: 0 for k in fns}
+
+    def ask(which, H, arg):
+        cases[which] += 1
+        r = h16.run_op(prog, fns[which], H, [arg], None)
+        if r.stuck:
+            return 'stuck: %s' % r.stuck
+        if r.machine.writes:
+            w = r.machine.writes[0]
+            return 'writes %s->%s at %s' % (w[0], w[1], _rel(w[4]))
+        if r.machine.indirect:
+            return 'calls through a pointer'
+        return r.ret
+
+    for f in fns.values():
+        h16.public_fn(prog, f)
     for n in range(0, maxn + 1):
         for shape in _shapes(n):
-            H = Heap()
-            order = []
-            def build(t, parent):
-                if t is None:
-                    return NULL
-                me = 'n%d' % len(H.nodes)
-                H.node(me, left=NULL, right=NULL, parent=parent, height=1)
-                l = build(t[0], me)
-                order.append(me)
-                r = build(t[1], me)
-                H.nodes[me]['left'], H.nodes[me]['right'] = l, r
-                return me
-            root = build(shape, NULL)
-            H.node('T', root=root, compare=NULL)
+            # heights are irrelevant to traversal (shapes need not be balanced)
+            H, order = h16.build_tree(shape)
             for which in ('min', 'max'):
-                cases[which] += 1
-                try:
-                    got = Interp(prog, H).call(fns[which], ['T'])
-                except Stuck as s_:
-                    got = 'stuck: %s' % s_
+                got = ask(which, H, 'T')
                 want = (order[0] if which == 'min' else order[-1]) if order else NULL
                 if got != want:
-                    bad[which].append((shape, got, want))
+                    bad[which].append((render(H), got, want))
+            got = ask('empty', H, 'T')
+            if isinstance(got, str) or got is JUNK or (got is not NULL and got != 0) != (not order):
+                bad['empty'].append((render(H), got, 'non-zero' if not order else '0'))
+            got = ask('next_safe', H, NULL)
+            if got is not NULL:
+                bad['next_safe'].append((render(H), 'next_safe of NULL is %s' % (got,), NULL))
             for i, nd in enumerate(order):
-                for which, want in (('next', order[i + 1] if i + 1 < len(order) else NULL), ('prev', order[i - 1] if i > 0 else NULL)):
-                    cases[which] += 1
-                    try:
-                        got = Interp(prog, H).call(fns[which], [nd])
-                    except Stuck as s_:
-                        got = 'stuck: %s' % s_
+                nx = order[i + 1] if i + 1 < len(order) else NULL
+                for which, want in (('next', nx), ('next_safe', nx), ('prev', order[i - 1] if i > 0 else NULL)):
+                    got = ask(which, H, nd)
                     if got != want:
-                        bad[which].append((shape, 'node #%d -> %s' % (i, got), want))
-    for which in ('next', 'prev', 'min', 'max'):
+                        bad[which].append((render(H), '%s of %s is %s' % (which, nd, got), want))
+    for which in ('next', 'prev', 'min', 'max', 'empty', 'next_safe'):
         f = prog.fn(fns[which])
         b = bad[which]
         ctx.ob('R-C16f', fns[which], not b, loc=f.loc,
-               detail=('%d cases; first failure: shape %s: %s, expected %s' % (cases[which], b[0][0], b[0][1], b[0][2])) if b else
-                      '%d (shape, node) cases up to %d nodes: every result is the in-order neighbour / extreme' % (cases[which], maxn), fn=f.q)
+               detail=('%d cases; first failure: tree %s: %s, expected %s' % (cases[which], b[0][0], b[0][1], b[0][2])) if b else
+                      '%d (shape, node) cases up to %d nodes: every result is the in-order neighbour / extreme; nothing is written' % (cases[which], maxn),
+               fn=f.q)
